@@ -1,4 +1,5 @@
 import BHS.Props.C13
+import BHS.Props.C13Size
 import BHS.Props.SqlShape.GetHeaders
 import BHS.Props.HeaderSvcGen
 open BHS.Props.C13
@@ -27,3 +28,8 @@ open BHS.Props.C13
 #print axioms BHS.Props.HeaderSvcGen.C13_locator_generated
 #print axioms BHS.Props.HeaderSvcGen.C13_getheaders_generated
 #print axioms BHS.Props.HeaderSvcGen.C13_findings_generated
+#print axioms locHeights_doubling
+#print axioms locHeights_linear
+#print axioms C13_locator_heights_size
+#print axioms C13_locator_heights_size_u32
+#print axioms C13_locator_size
